@@ -389,6 +389,20 @@ SpecShape(nd, shapes) ==
             s[CHOOSE j \in 1..Len(s) :
                 /\ ~\E z \in 1..Len(nd.axes) : nd.axes[z] + 1 = j
                 /\ Cardinality({w \in 1..j : ~\E z \in 1..Len(nd.axes) : nd.axes[z] + 1 = w}) = q]]
+    \* NumPy-level kinds: the result shape is the broadcast of the operand shapes
+    [] k \in {"binop", "where", "ucall", "lnot"} ->
+         LET ops == CASE k = "binop" -> <<nd.x1, nd.x2>>
+                      [] k = "where" -> <<nd.c, nd.t, nd.e>>
+                      [] k = "ucall" -> nd.args
+                      [] k = "lnot"  -> <<nd.x>>
+             shs == [q \in 1..Len(ops) |->
+                       IF "n" \in DOMAIN ops[q] THEN shapes[ops[q].n] ELSE <<>>]
+         IN IF BroadcastableAll(shs) THEN BShapeAll(shs) ELSE <<-1>>
+    [] k = "bcast" ->
+         LET s == shapes[nd.x.n] IN
+         IF Len(s) <= Len(nd.shape) /\ Broadcastable2(s, nd.shape)
+            /\ BShape2(s, nd.shape) = nd.shape
+         THEN nd.shape ELSE <<-1>>
     [] OTHER -> nd.shape
 
 ShapesOK(g) ==
